@@ -166,6 +166,8 @@ def build(desc: dict) -> Any:
         order = desc.get("order", "sf")
         if order == "fs":
             da = da.transpose(*fnames, *snames)
+        elif order == "rev":
+            da = da.transpose(*reversed(da.dims))       # also permutes the feature (and sample) dims among themselves
         elif order == "mixed" and len(da.dims) >= 3:
             d = list(da.dims)
             d = d[1:] + d[:1]
